@@ -174,7 +174,7 @@ pub async fn run_case(backend: &str, seed: u64, rep: &mut Report, corr: &mut Cor
             // divergent events interleaved in timestamp order
             let suffix: Vec<i128> = recs.iter().skip(anc.len()).map(|r| r.1).collect();
             if anc.len() <= recs.len() && recs[..anc.len()] == anc[..] && suffix.windows(2).any(|p| p[0] > p[1]) {
-                rep.spec_fail("c05-merged-events-not-in-timestamp-order", json!({"case_seed": seed, "backend": backend, "log": name, "script": script}), "events after the ancestor are not in timestamp order");
+                rep.spec_fail(&format!("c05-merged-events-not-in-timestamp-order{}", if has_dups(name) { "-with-byte-identical-events" } else { "-all-events-distinct" }), json!({"case_seed": seed, "backend": backend, "log": name, "script": script}), "events after the ancestor are not in timestamp order");
             }
             if got != want {
                 let class = format!("{}{}", if got.len() > want.len() { "c05-event-duplicated-or-added" } else { "c05-event-lost" },
@@ -266,4 +266,182 @@ async fn merge_corr(seed: u64, n: usize, rep: &mut Report, corr: &mut Corr) {
         corr.ops.push(op);
         corr.imp.push(out);
     }
+}
+
+/// C09: the devices' sync calls run concurrently; the harness scheduler releases one
+/// request at a time in a generated order (request-granularity interleaving).
+pub async fn run_concurrent_case(backend: &str, seed: u64, rep: &mut Report) -> anyhow::Result<()> {
+    use crate::bridge::{Gate, Waiting};
+    use sos_protocol::{AsConflict, SyncOptions};
+    use sos_remote_sync::AutoMerge;
+    let mut rng = Rng::new(seed ^ 0xC09);
+    let n_dev = rng.range(2, 3) as usize;
+    let w = World::new(n_dev, backend).await?;
+    let mut script: Vec<String> = vec![format!("world devices={n_dev} backend={backend}")];
+    let mut pool: Vec<SecretId> = vec![];
+    {
+        let mut a = w.devices[0].lock().await;
+        for i in 0..2 { let (m, s) = note(&format!("base{i}"), "v0"); pool.push(a.create_secret(m, s, Default::default()).await?.id); }
+    }
+    for _ in 0..2 { for k in 0..n_dev { let _ = w.sync(k).await; } }
+    // pre-history: none / one device / all devices edited (no conflict, soft conflict)
+    let pre = *rng.pick(&[0u64, 1, 2, 2, 3, 3, 3]);
+    let mut committed: BTreeMap<String, Vec<String>> = BTreeMap::new();
+    if pre == 3 {
+        // the server is ahead: device 0 edits and syncs first, the others then edit offline
+        let mut a = w.devices[0].lock().await;
+        for _ in 0..rng.range(1, 2) { let (m, s) = note(&format!("s{}", rng.below(100000)), "x"); let _ = a.create_secret(m, s, Default::default()).await; }
+        drop(a);
+        let _ = w.sync(0).await;
+        script.push("edit d0 create + sync (server ahead)".into());
+    }
+    for k in 0..n_dev {
+        if pre == 0 || (pre == 1 && k > 0) || (pre == 3 && k == 0) { continue; }
+        let before = w.device_logs(k).await;
+        let mut a = w.devices[k].lock().await;
+        for _ in 0..rng.range(1, 3) {
+            match rng.below(3) {
+                0 => { let (m, s) = note(&format!("n{}-{}", k, rng.below(100000)), "x"); let _ = a.create_secret(m, s, Default::default()).await; script.push(format!("edit d{k} create")); }
+                1 => { let id = *rng.pick(&pool); let (m, s) = note(&format!("u{}-{}", k, rng.below(100000)), "y"); let r = a.update_secret(&id, m, Some(s), Default::default()).await; script.push(format!("edit d{k} update -> {}", r.is_ok())); }
+                _ => { if let Some(f) = a.default_folder().await { let r = a.rename_folder(f.id(), format!("name-{}-{}", k, rng.below(100000))).await; script.push(format!("edit d{k} rename -> {}", r.is_ok())); } }
+            }
+        }
+        drop(a);
+        let after = w.device_logs(k).await;
+        for (name, recs) in &after { let b = before.get(name).map(|v| v.len()).unwrap_or(0); for r in recs.iter().skip(b) { committed.entry(name.clone()).or_default().push(r.0.clone()); } }
+    }
+    rep.count(&format!("pre-history:{}", ["none", "one-device", "all-devices", "server-ahead-others-edited"][pre as usize]));
+    // concurrent sync calls under the scheduler
+    let (tx, mut rx) = tokio::sync::mpsc::unbounded_channel::<Waiting>();
+    let mut handles = vec![];
+    for k in 0..n_dev {
+        let mut b = w.bridges[k].clone();
+        b.client.gate = Gate { tx: Some(tx.clone()) };
+        handles.push(tokio::spawn(async move {
+            match b.execute_sync(&SyncOptions::default()).await {
+                Ok(_) => "ok".to_string(),
+                Err(e) => if e.is_hard_conflict() { "conflict:hard".into() } else if e.is_conflict() { "conflict:soft".into() } else { format!("error:{e}") },
+            }
+        }));
+    }
+    drop(tx);
+    let mut waiting: Vec<Option<Waiting>> = (0..n_dev).map(|_| None).collect();
+    let mut done = vec![false; n_dev];
+    let mut ever: BTreeMap<String, std::collections::BTreeSet<String>> = BTreeMap::new();
+    let note_server = |ever: &mut BTreeMap<String, std::collections::BTreeSet<String>>, logs: &BTreeMap<String, Recs>| {
+        for (n, r) in logs { for x in r { ever.entry(n.clone()).or_default().insert(x.0.clone()); } }
+    };
+    note_server(&mut ever, &w.server_logs().await);
+    let deadline = std::time::Instant::now() + std::time::Duration::from_secs(40);
+    let mut hang = false;
+    let mut steps = 0;
+    'outer: loop {
+        for k in 0..n_dev {
+            while !done[k] && waiting[k].is_none() {
+                if handles[k].is_finished() { done[k] = true; break; }
+                match rx.try_recv() {
+                    Ok(wt) => { let d = wt.device; waiting[d] = Some(wt); }
+                    Err(_) => tokio::time::sleep(std::time::Duration::from_millis(1)).await,
+                }
+                if std::time::Instant::now() > deadline { hang = true; break 'outer; }
+            }
+        }
+        let ready: Vec<usize> = (0..n_dev).filter(|k| waiting[*k].is_some()).collect();
+        if ready.is_empty() { break; }
+        let k = *rng.pick(&ready);
+        let wt = waiting[k].take().unwrap();
+        let before = w.server_logs().await;
+        script.push(format!("step d{k}:{}", wt.request));
+        let req = wt.request;
+        let _ = wt.release.send(());
+        loop {
+            if handles[k].is_finished() { done[k] = true; break; }
+            match rx.try_recv() {
+                Ok(w2) => { let d = w2.device; waiting[d] = Some(w2); if d == k { break; } }
+                Err(_) => tokio::time::sleep(std::time::Duration::from_millis(1)).await,
+            }
+            if std::time::Instant::now() > deadline { hang = true; break 'outer; }
+        }
+        steps += 1;
+        let after = w.server_logs().await;
+        note_server(&mut ever, &after);
+        // the server's logs only ever change by whole accepted patches: old ++ patch, or (rewound prefix) ++ patch
+        for (name, old) in &before {
+            let new = after.get(name).cloned().unwrap_or_default();
+            if &new == old { continue; }
+            let common = old.iter().zip(new.iter()).take_while(|(a, b)| a == b).count();
+            let is_append = common == old.len();
+            if !is_append && req != "patch" && req != "update" {
+                rep.spec_fail("c09-server-log-rewritten-by-non-patch-request", json!({"case_seed": seed, "backend": backend, "script": script, "log": name, "request": req}), "server log changed other than by appending during a request that must not rewind");
+            }
+            // accepted events dropped by this request
+            let newset: std::collections::BTreeSet<&String> = new.iter().map(|r| &r.0).collect();
+            let dropped: Vec<&String> = old.iter().map(|r| &r.0).filter(|c| !newset.contains(c)).collect();
+            if !dropped.is_empty() {
+                rep.spec_fail("c09-accepted-event-dropped-by-stale-rewind", json!({"case_seed": seed, "backend": backend, "script": script, "log": name, "request": req, "dropped": dropped.len()}), "a rewind-and-patch request removed events the server had accepted from another device and did not re-apply them");
+            }
+        }
+    }
+    if hang {
+        rep.spec_fail("c09-sync-call-did-not-end", json!({"case_seed": seed, "backend": backend, "script": script}), "a sync call neither completed nor issued a request within 40 s");
+        for h in &handles { h.abort(); }
+        rep.case(&script.join(";"), true);
+        return Ok(());
+    }
+    for (k, h) in handles.into_iter().enumerate() {
+        let r = h.await.unwrap_or_else(|e| format!("task-panic:{e}"));
+        script.push(format!("result d{k} -> {r}"));
+        rep.count(&format!("result:{}", r.split(':').next().unwrap()));
+        if r.starts_with("task-panic") { rep.spec_fail("c09-sync-call-panicked", json!({"case_seed": seed, "backend": backend, "script": script}), &r); }
+    }
+    rep.count_n("requests-scheduled", steps);
+    // one further sequential round (twice) must converge as in C04
+    for _ in 0..2 { for k in 0..n_dev { let r = w.sync(k).await; script.push(format!("sync d{k} -> {:?}", r)); } }
+    let ss = w.server_status().await;
+    let mut converged = true;
+    for k in 0..n_dev { if w.device_status(k).await != ss { converged = false; } }
+    if !converged {
+        rep.spec_fail("c09-no-convergence-after-extra-round", json!({"case_seed": seed, "backend": backend, "script": script}), "after the concurrent syncs and two further sequential rounds the replicas differ");
+    }
+    // every event the server ever accepted is still there
+    let fin = w.server_logs().await;
+    for (name, set) in &ever {
+        let have: std::collections::BTreeSet<&String> = fin.get(name).map(|v| v.iter().map(|r| &r.0).collect()).unwrap_or_default();
+        let lost = set.iter().filter(|c| !have.contains(c)).count();
+        if lost > 0 {
+            rep.spec_fail("c09-accepted-event-missing-at-end", json!({"case_seed": seed, "backend": backend, "script": script, "log": name, "lost": lost}), "an event the server had accepted is not in its final log");
+        }
+    }
+    rep.count(if converged { "converged" } else { "not-converged" });
+    rep.case(&script.join(";"), pre > 0);
+    if seed % 20 == 0 { rep.sample(json!({"script": script})); }
+    let _ = committed;
+    Ok(())
+}
+
+pub fn run_sched(cli: &Cli) {
+    let property = cli.extra.get("property").cloned().unwrap_or("C09".into());
+    let mut rep = Report::new(&property, "sched", cli.seed, &cli.tier);
+    let rt = tokio::runtime::Builder::new_multi_thread().worker_threads(4).enable_all().build().unwrap();
+    let n: u64 = cli.extra.get("cases").and_then(|s| s.parse().ok()).unwrap_or(if cli.tier == "thorough" { 600 } else { 60 });
+    if let Some(path) = &cli.replay {
+        let v: serde_json::Value = serde_json::from_str(&std::fs::read_to_string(path).unwrap()).unwrap();
+        let seed = v["case"]["case_seed"].as_u64().unwrap_or(cli.seed);
+        let backend = v["case"]["backend"].as_str().unwrap_or("fs").to_string();
+        let _ = rt.block_on(run_concurrent_case(&backend, seed, &mut rep));
+        rep.write(&cli.out);
+        return;
+    }
+    for backend in ["fs", "db"] {
+        for k in 0..n {
+            let case_seed = cli.seed.wrapping_mul(1_000_003).wrapping_add(k);
+            if let Err(e) = rt.block_on(run_concurrent_case(backend, case_seed, &mut rep)) {
+                rep.notes.push(format!("case {backend}/{case_seed} aborted: {e}"));
+            }
+        }
+    }
+    rep.rule = format!("{n} cases per backend: 2-3 real devices whose sync calls run concurrently against one real server storage; the harness releases one request \
+        (status / sync / scan / diff / patch) at a time in a generated order; pre-histories: no edits, one device edited (fast-forward), all devices edited (soft conflict, distinct events); \
+        then two sequential rounds; non-trivial = some device had edits");
+    rep.write(&cli.out);
 }
